@@ -394,11 +394,11 @@ func PanicClass(p interface{}) string {
 	}
 	// explicit panic: keep a stable prefix without numbers
 	var b strings.Builder
-	for _, r := range s {
+	for _, r := range strings.TrimSpace(s) {
 		if r >= '0' && r <= '9' {
 			continue
 		}
-		if r == ' ' || r == ':' {
+		if r <= ' ' || r == ':' { // keys must not contain white space (they are matched as one field)
 			r = '_'
 		}
 		b.WriteRune(r)
